@@ -219,6 +219,57 @@ def window_case(item):
     return res
 
 
+def dirlink_case(item):
+    """The user's file at a name that a rule matches is a symbolic link to a directory of theirs: no redo command may replace the
+    link or touch the directory."""
+    from .. import common, scen
+    _, rule, cmd, prior, seed = item
+    tname = {'specific': 'T', 'default-here': 'T.gen', 'default-parent': 'sub/T.gen'}[rule]
+    dopath = {'specific': 'T.do', 'default-here': 'default.gen.do', 'default-parent': 'default.gen.do'}[rule]
+    good = scen.TRACE_HDR + 'echo "S $1 $$ $PPID" >&9\necho generated > "$3"\necho "E $1 $$ 0" >&9\n'
+    pj = scen.Project({dopath: good, 'sub/keep': 'x\n'}, 'c11d')
+    anoms = []
+    obs = dict(user_symlink_to_directory_scenarios=1, commands=0)
+    tpath = os.path.join(pj.top, tname)
+    try:
+        if prior == 'built-then-removed':
+            r0, _ = pj.run(['redo-ifchange', tname])
+            obs['commands'] += 1
+            if r0.rc != 0:
+                return dict(verdict='inconclusive', why='prior build failed', sample=dict(item=list(item)))
+            os.unlink(tpath)
+        udir = os.path.join(os.path.dirname(tpath), 'users-dir')
+        os.makedirs(udir)
+        common.write_file(os.path.join(udir, 'inside'), b'kept by the user\n')
+        os.symlink('users-dir', tpath)
+        fp = (os.lstat(tpath).st_ino, os.readlink(tpath))
+        open(pj.trace, 'w').close()
+        for c in ([cmd] if cmd != 'both' else ['redo-ifchange', 'redo']):
+            r, _ = pj.run([c, tname])
+            obs['commands'] += 1
+            for a in scen.crash_anoms(r, '', 'c11'):
+                anoms.append(dict(key='c11-' + a['key'], what=a['what']))
+            now = (os.lstat(tpath).st_ino, os.readlink(tpath)) if os.path.islink(tpath) else None
+            if now != fp:
+                anoms.append(dict(key='user-file-touched:symlink-to-a-directory:%s' % rule,
+                                  what='%s %s: the user had made %s a symbolic link to a directory; after the command it is %s (exit %s): %s'
+                                       % (c, tname, tname, 'no link any more' if now is None else 'another link', r.rc, (r.err + r.out)[-200:].replace('\n', ' | '))))
+                break
+            if common.read_file(os.path.join(udir, 'inside')) != b'kept by the user\n':
+                anoms.append(dict(key='user-file-touched:directory-behind-the-symlink:%s' % rule, what='%s %s changed the directory the link points to' % (c, tname)))
+                break
+        if b'\nS ' in (b'\n' + (common.read_file(pj.trace) or b'')) and not anoms:
+            anoms.append(dict(key='script-ran-for-user-file:symlink-to-a-directory', what='the rule ran for a name that the user owns'))
+    finally:
+        pj.close()
+    res = dict(verdict='violated' if anoms else 'held', nontrivial=True, shape=common.shash(list(item)),
+               sample=dict(kind='user-symlink-to-a-directory', rule=rule, cmd=cmd, prior=prior), obs=obs, sets=dict(early_abort_causes=['dirlink:' + rule]))
+    if anoms:
+        res['violations'] = anoms[:3]
+        res['replay'] = dict(kind='dirlink', item=list(item))
+    return res
+
+
 class Dispatch:
     def __init__(self, hist):
         self.hist = hist
@@ -228,6 +279,8 @@ class Dispatch:
             return early_abort_case(tuple(item))
         if isinstance(item, (tuple, list)) and item and item[0] == 'window':
             return window_case(tuple(item))
+        if isinstance(item, (tuple, list)) and item and item[0] == 'dirlink':
+            return dirlink_case(tuple(item))
         return self.hist(item, **kw)
 
 
@@ -239,7 +292,7 @@ RULE = ('histories over programs whose target names are matched by specific rule
         'user-owned file unchanged by every command; the script of a user-owned name never runs (trace); dependents see the user\'s bytes '
         '(content oracle); after the user removes the file the next build produces it again; a hand-edited generated target named on '
         'the command line draws the "you modified it" warning. Early-abort layer: redo gives up on a target before its script starts (TMPDIR points nowhere / the rule\'s first line is not text), '
-        'the user makes the file by hand, the cause is repaired: later redo / redo-ifchange / consumer builds leave the file (inode, size, mtime, bytes) alone, the rule does not run, the consumer sees the user\'s bytes. Window layer: the user makes the file after redo has written its start-of-build record and before the script starts (delay hook before_job_start): the command in progress leaves the file (inode, size, mtime, bytes) as it is. Non-trivial: >=1 user write, >=2 builds, >=2 ownership changes. '
+        'the user makes the file by hand, the cause is repaired: later redo / redo-ifchange / consumer builds leave the file (inode, size, mtime, bytes) alone, the rule does not run, the consumer sees the user\'s bytes. Directory-link layer: the file of the user is a symbolic link to a directory of theirs (specific rule, default rule here / in the parent; never built or built and removed before): redo and redo-ifchange leave the link and the directory alone and do not run the rule. Window layer: the user makes the file after redo has written its start-of-build record and before the script starts (delay hook before_job_start): the command in progress leaves the file (inode, size, mtime, bytes) as it is. Non-trivial: >=1 user write, >=2 builds, >=2 ownership changes. '
         'Distinct: (graph shape, op sequence).')
 ASSUME = ['window layer: only the command in progress is judged (afterwards redo cannot tell a file the user made during a build from one its own script wrote into $1, and treats both as a failed build of its own)', 'harness edits always change mtime (and the size or inode)', 'ownership automaton none/redo/user of rvlib/model.py']
 
@@ -260,6 +313,11 @@ def main(tier):
                     if out == 'none' and prior == 'built-then-removed' and cmd == 'redo-ifchange':
                         continue        # a target without output that was built is up to date: nothing is started
                     extra.append(('window', out, prior, cmd, rep))
+    for rep in range(1 if tier == 'quick' else 4):
+        for rule in ('specific', 'default-here', 'default-parent'):
+            for cmd in ('redo', 'redo-ifchange', 'both'):
+                for prior in ('never-built', 'built-then-removed'):
+                    extra.append(('dirlink', rule, cmd, prior, rep))
     import random
     from .. import common, faults
     common.ensure_built()
@@ -274,6 +332,16 @@ def replay(path):
     if d['replay'].get('kind') == 'io-fault':
         from .. import faults
         return faults.replay(PROP, path)
+    if d['replay'].get('kind') == 'dirlink':
+        from .. import common
+        common.ensure_built()
+        r = dirlink_case(tuple(d['replay']['item']))
+        print(r.get('verdict'), r.get('violations') or r.get('why'))
+        common.cleanup_scratch()
+        if r.get('verdict') == 'violated':
+            print('VIOLATION property=%s replay=%s' % (PROP, path))
+            return 1
+        return 0
     if d['replay'].get('kind') == 'window':
         from .. import common
         common.ensure_built()
